@@ -525,3 +525,82 @@ Proof.
   repeat split; auto.
   intros ->. now apply acquire_key_kid.
 Qed.
+
+(* ------------------------------------------------------------------ non-vacuity: the hypotheses are satisfiable *)
+Module Toy.
+  Definition pad (n : nat) (b : bytes) : bytes := firstn n (b ++ repeat x00 n).
+  Lemma pad_len n b : lenN (pad n b) = N.of_nat n.
+  Proof.
+    unfold pad. rewrite lenN_length, firstn_length, app_length, repeat_length. lia.
+  Qed.
+
+  Definition pub (s : bytes) : bytes := pad 32 s.
+  Definition xpub (x : bytes) : bytes := pad 32 (skipn 32 x).
+  Definition sgn (s m : bytes) : bytes := repeat x07 64.
+  Definition H (b : bytes) : bytes := pad 28 b.
+  Definition ver (vk m s : bytes) : bool := bytes_eqb s (repeat x07 64).
+  Definition nobech (t : bytes) : option bytes := None.
+
+  Definition k_pay : skey := {| sk_kind := KPay; sk_ext := false; sk_payload := repeat x01 32 |}.
+  Definition k_xstake : skey :=
+    {| sk_kind := KStake; sk_ext := true;
+       sk_payload := repeat x02 32 ++ repeat x03 32 ++ pad 32 (repeat x03 32) ++ repeat x04 32 |}.
+  Definition msg : bytes := hx "68c3a9f09f9880".                      (* "hé" + U+1F600 *)
+
+  Example complete_hypotheses :
+    (forall s m, ver (pub s) m (sgn s m) = true) /\ (forall x m, ver (xpub x) m (sgn x m) = true)
+    /\ (forall b, lenN (H b) = 28) /\ (forall s m, lenN (sgn s m) = 64)
+    /\ wf_key pub xpub k_pay /\ wf_key pub xpub k_xstake
+    /\ utf8_valid msg = true /\ lenN msg < two64.
+  Proof.
+    repeat split; try reflexivity; intros; try apply pad_len; try discriminate.
+  Qed.
+
+  Example complete_instance :
+    let '(sm, key) := cip8_sign pub sgn sgn H msg k_xstake false Mainnet in
+    cip8_verify ver H nobech sm key
+    = Ok {| verified := true; message := msg; address := addr_of_key pub H k_xstake Mainnet |}.
+  Proof. vm_compute. reflexivity. Qed.
+
+  (* regression witnesses of the two defects fixed in cip8.verify (e3a6d93, 2f54ab3), with a signature check
+     that accepts everything: only the header_intact / signature-length clauses can reject *)
+  Definition yes (vk m s : bytes) : bool := true.
+  Definition vkp : bytes := pub (sk_payload k_pay).
+  Definition abp : bytes := addr_bytes_of_key pub H k_pay Testnet.
+  Definition noncanonical_prot : bytes :=                                (* label 1 written as 18 01 *)
+    hx "a31801" ++ skipn 2 (enc (CM (phdr_pairs abp vkp false))).
+  Example reencoded_header_not_verified :
+    match cip8_verify yes H nobech (enc (CA [CB noncanonical_prot; sign_uhdr; CB msg; CB (repeat x07 64)])) None with
+    | Ok r => verified r = false /\ message r = msg
+    | Err _ => False
+    end.
+  Proof. vm_compute. split; reflexivity. Qed.
+
+  Example long_key_needs_64_byte_signature :
+    cip8_verify yes H nobech
+      (enc (CA [CB (enc (CM (phdr_pairs abp vkp true))); sign_uhdr; CB msg; CB (repeat x07 65)]))
+      (Some (cose_key_bytes (vkp ++ repeat x00 32)))
+    = Err EValueError.
+  Proof. vm_compute. reflexivity. Qed.
+
+  (* tamper: a scheme in which exactly one (message, signature) pair verifies, and a hash that binds vk *)
+  Definition prot0 : bytes := sign_prot pub H k_pay false Testnet.
+  Definition tbs0 : bytes := sig_structure prot0 msg.
+  Definition sg0 : bytes := sign_sig pub sgn sgn H msg k_pay false Testnet.
+  Definition ver1 (vk m s : bytes) : bool := bytes_eqb m tbs0 && bytes_eqb s sg0.
+  Definition H1 (b : bytes) : bytes := if bytes_eqb b vkp then repeat x01 28 else repeat x00 28.
+
+  Example tamper_hypotheses :
+    (forall b, lenN (H1 b) = 28) /\ unforgeable_at ver1 (vk_of pub k_pay) tbs0 sg0 /\ hash_binds H1 (vk_of pub k_pay)
+    /\ lenN (vk_of pub k_pay) = 32.
+  Proof.
+    repeat split.
+    - intros b. unfold H1. destruct (bytes_eqb b vkp); reflexivity.
+    - unfold ver1 in H0. apply andb_true_iff in H0 as [A _]. now apply bytes_eqb_eq in A.
+    - unfold ver1 in H0. apply andb_true_iff in H0 as [_ B]. now apply bytes_eqb_eq in B.
+    - intros v' E. unfold H1 in E. change (vk_of pub k_pay) with vkp in *.
+      rewrite bytes_eqb_refl in E. destruct (bytes_eqb v' vkp) eqn:Q.
+      + now apply bytes_eqb_eq in Q.
+      + discriminate E.
+  Qed.
+End Toy.
